@@ -20,6 +20,7 @@ import YtkModel.Codec
 import YtkProofs.HeapOverlay
 import YtkProofs.HeapOverlayPut
 import YtkProofs.Decisions2
+import YtkProofs.FuncsDomOverlay
 
 namespace Ytk.C06
 
@@ -906,6 +907,51 @@ theorem nonvacuous_last_wins :
     Ytk.lookup (merged .meld (exState.take 2)) "a.b" = some (i "2") ∧
     Ytk.lookup (merged .meld exState) "a.b" = some (i "2") ∧
     Ytk.lookup (merged .meld exState) "a.c" = some (i "4") := by
+  decide +kernel
+
+end Ytk.C06
+
+/-! ## xlate7d: the REGENERATED translation of dom/overlay.go's walkers and lookups (Generated/FuncsDom.lean)
+
+  `walkNode / walkList / walkContainer` (the code behind `Walk`), `Lookup`, `LookupAny` are rewritten from the Go source on
+  every run.  The visitor is a PARAMETER of the translation, in the monad `Go.Res` (it may panic); the model's walkers
+  carry a visitor with state σ.  Instantiating σ with "the first abnormal outcome of the visitor"
+  (`FuncsDomOverlay.liftV`) the two are EQUAL for every visitor — which pins down the set of visited leaves, their order
+  and the early exit (a visitor that would panic on a leaf behind the one where it returned false is not reached). -/
+namespace Ytk.C06
+open Ytk.Generated Ytk.FuncsDomOverlay
+
+theorem walkContainer_generated_eq_model (g : String → String → Scalar → Go.Res Bool) (layer path : String) (c : AMap Node) :
+    FuncsDom.walkContainer layer path c (fnOf g) = outcome (Overlay.walkKvs (liftV g) layer c path (.ok ())) :=
+  FuncsDomOverlay.walkContainer_generated_eq_model g layer path c
+
+theorem walkList_generated_eq_model (g : String → String → Scalar → Go.Res Bool) (layer path : String) (l : List Node) :
+    FuncsDom.walkList layer path l (fnOf g) = outcome (Overlay.walkList (liftV g) layer l path 0 (.ok ())) :=
+  FuncsDomOverlay.walkList_generated_eq_model g layer path l
+
+theorem walkNode_generated_eq_model (g : String → String → Scalar → Go.Res Bool) (layer path : String) (parent n : Node) :
+    FuncsDom.walkNode layer path parent n (fnOf g) = outcome (Overlay.walkNode (liftV g) layer n path (.ok ())) :=
+  FuncsDomOverlay.walkNode_generated_eq_model g layer path parent n
+
+/-- Lookup(overlay, path) over the Go state `names` + `overlays` representing the model's layer list `s` -/
+theorem overlayLookup_generated_eq_model (s : Overlay) (ov : GoDom.ContMap) (hr : Rep s ov) (l path : String) :
+    FuncsDom.overlayLookup (Overlay.layerNames s) ov l path = .ok (Overlay.lookup s l path) :=
+  FuncsDomOverlay.overlayLookup_generated_eq_model s ov hr l path
+
+/-- LookupAny(path): the first layer in creation order with a hit -/
+theorem overlayLookupAny_generated_eq_model (s : Overlay) (ov : GoDom.ContMap) (hr : Rep s ov) (path : String) :
+    FuncsDom.overlayLookupAny (Overlay.layerNames s) ov path = .ok (Overlay.lookupAny s path) :=
+  FuncsDomOverlay.overlayLookupAny_generated_eq_model s ov hr path
+
+/-- the translated walkers RUN with a visitor that stops at `b` and would PANIC on `c`: the early exit is taken
+    (`ok false`); with a visitor that accepts `b` the panic is reached -/
+theorem nonvacuous_walk_generated :
+    FuncsDom.walkContainer "L" "" [("a", .list [.leaf ⟨"int", "1"⟩]), ("b", .leaf ⟨"int", "2"⟩), ("c", .leaf ⟨"int", "3"⟩)]
+        (fnOf (fun _ p _ => if p == "b" then .ok false else if p == "c" then .panic else .ok true)) = .ok false ∧
+    FuncsDom.walkContainer "L" "" [("a", .list [.leaf ⟨"int", "1"⟩]), ("b", .leaf ⟨"int", "2"⟩), ("c", .leaf ⟨"int", "3"⟩)]
+        (fnOf (fun _ p _ => if p == "c" then .panic else .ok true)) = .panic ∧
+    FuncsDom.overlayLookupAny ["x", "y"] [("x", [("k", .leaf ⟨"int", "1"⟩)]), ("y", [("k", .leaf ⟨"int", "2"⟩), ("m", .leaf ⟨"int", "3"⟩)])] "m"
+      = .ok (some (.leaf ⟨"int", "3"⟩)) := by
   decide +kernel
 
 end Ytk.C06
